@@ -241,6 +241,35 @@ def apply_cfg(text, features):
             text = text[:m.start()] + text[end:]
 
 
+def apply_cfg_blank(text, features):
+    """Like apply_cfg but keeps line numbers: statements whose cfg is false are blanked, true attributes are blanked."""
+    while True:
+        masked = mask_noncode(text)
+        m = re.search(r'#\[cfg\(', masked)
+        if not m:
+            return text
+        close = match_close(masked, m.end() - 1, '(', ')')
+        expr = text[m.end():close]
+        rb = masked.index(']', close)
+        val = _eval_cfg(expr, features)
+        blank = lambda a, b: ''.join(ch if ch == '\n' else ' ' for ch in text[a:b])
+        if val is None or val:
+            text = text[:m.start()] + blank(m.start(), rb + 1) + text[rb + 1:]
+            continue
+        k = rb + 1
+        n = len(masked)
+        while k < n and masked[k].isspace():
+            k += 1
+        if masked[k] == '{':
+            end = match_close(masked, k) + 1
+        else:
+            j = k
+            while j < n and masked[j] not in ';{':
+                j += 1
+            end = (match_close(masked, j) + 1) if (j < n and masked[j] == '{') else j + 1
+        text = text[:m.start()] + blank(m.start(), end) + text[end:]
+
+
 PTR_TYPES = r'(MemoryAreas|Registers|Self)'
 
 
